@@ -109,6 +109,10 @@ func perform(st *drpcstream.Stream, op refstream.Op, call int, r *callRes) {
 		r.flag, r.err = st.SendCancel(e2)
 	case refstream.Flush:
 		r.err = st.RawFlush()
+	case refstream.RawWrite:
+		r.err = st.RawWrite(drpcwire.KindMessage, payloadFor(call))
+	case refstream.RawRecv:
+		r.data, r.err = st.RawRecv()
 	case refstream.PMsg:
 		pkt(drpcwire.KindMessage, false, payloadFor(call), sid)
 	case refstream.PCloseSend:
@@ -194,7 +198,7 @@ func scenario(mf bool, prefix []refstream.Op, free int, label string) *mc.Scenar
 					if !classOK(x.Class, c) {
 						return fail("call #%d %s returned err=%v flag=%v, the state machine says %s", i, c.op, c.err, c.flag, x.Class)
 					}
-					if c.op == refstream.Recv && x.Data {
+					if (c.op == refstream.Recv || c.op == refstream.RawRecv) && x.Data {
 						ok := false
 						for _, p := range sentPayload {
 							if bytes.Equal(p, c.data) {
